@@ -354,6 +354,7 @@ gate_alias_inst!(cgate5_alias_b0, 0, false);
 gate_alias_inst!(cgate5_alias_b1, 1, true);
 
 vharness! {
+    //@ twin_replay: yes
     //@ props: C11 C17 C12
     //@ env: VERIF_MVEC_CAP=1
     //@ tier: quick
